@@ -125,6 +125,8 @@ func C06(ctx *core.Ctx) {
 		return
 	}
 	fullReads(ctx, r, "C06.R11")
+	opIDOnlyOnFresh(ctx, r, "C06.R12", constString(r, "opIDHeader"))
+	registryOnlyAtConstruction(ctx, r, "C06.R13")
 	ctx.Rule("C06.R1", "non-blocking delivery cone: no blocking channel op / Sleep / Wait reachable from the inbound entry points; sends only inside select-with-default", 8)
 	ctx.Rule("C06.R2", "bounded lock hold: every critical section of the registry mutex contains no blocking op, no call that can reach one in package frugal, and only whitelisted pure external calls", 3)
 	ctx.Rule("C06.R3", "every result channel handed to fRegistry.Register has constant capacity ≥ 1", 2)
